@@ -478,3 +478,20 @@ Proof.
     + intros k. rewrite A. split; [intros [[]|H]; exact H|auto].
     + intros _. apply B. constructor.
 Qed.
+
+(* Go ranges over the selector's label map in random order: the order of the arguments does not matter *)
+Theorem intersection_perm : forall input input', Forall ssorted input -> Permutation input input' ->
+  intersection input = intersection input'.
+Proof.
+  intros input input' Hs Hp.
+  assert (Hs' : Forall ssorted input') by (eapply Forall_perm; eauto).
+  destruct (intersection_spec _ Hs) as [r [E [S M]]].
+  destruct (intersection_spec _ Hs') as [r' [E' [S' M']]].
+  rewrite E, E'. f_equal.
+  destruct input as [|d ds].
+  - apply Permutation_nil in Hp. subst. cbn in E, E'. congruence.
+  - assert (Hne' : input' <> []).
+    { intros ->. apply Permutation_sym in Hp. apply Permutation_nil in Hp. discriminate. }
+    apply ssorted_ext; auto. intros k. rewrite (M ltac:(discriminate) k), (M' Hne' k).
+    split; intros H; [eapply Forall_perm; [exact Hp|exact H]|eapply Forall_perm; [apply Permutation_sym; exact Hp|exact H]].
+Qed.
